@@ -161,6 +161,11 @@ def run(pid, fn, tier, seed, repo_root):
         repo = Repo(repo_root)
         ctx = Ctx(pid, tier, seed, repo)
         expl = fn(ctx)
+        if tier == "thorough" and not os.environ.get("VERIF_NO_SELFTEST"):
+            from . import selftest
+            try: selftest.run(ctx)
+            except Exception as ex:  # the adequacy run never decides the verdict
+                ctx.notes.append(f"checker adequacy run failed: {type(ex).__name__}: {ex}")
         return finish(ctx, expl or "")
     except AnalysisError as ex:
         print(f"ANALYSIS-ERROR property={pid} {ex}")
